@@ -1225,12 +1225,15 @@ void ICACHE_FLASH_ATTR supla_esp_recv_callback(void *arg, char *pdata,
             newMailLen < SUPLA_EMAIL_MAXSIZE) {
           int partPasswordLen = strnlen(supla_esp_cfg.Email + oldMailLen + 1,
                                         SUPLA_EMAIL_MAXSIZE - oldMailLen - 1);
-          if (partPasswordLen < SUPLA_EMAIL_MAXSIZE - oldMailLen - 1) {
-            if (partPasswordLen >= SUPLA_EMAIL_MAXSIZE - newMailLen - 1) {
-              partPasswordLen = SUPLA_EMAIL_MAXSIZE - newMailLen - 1;
+          if (partPasswordLen < SUPLA_EMAIL_MAXSIZE - oldMailLen - 1 &&
+              newMailLen < SUPLA_EMAIL_MAXSIZE - 1) {
+            // the part and its terminator have to fit behind the new e-mail
+            if (partPasswordLen > SUPLA_EMAIL_MAXSIZE - newMailLen - 2) {
+              partPasswordLen = SUPLA_EMAIL_MAXSIZE - newMailLen - 2;
             }
             memcpy(new_cfg.Email + newMailLen + 1,
-                   supla_esp_cfg.Email + oldMailLen + 1, partPasswordLen + 1);
+                   supla_esp_cfg.Email + oldMailLen + 1, partPasswordLen);
+            new_cfg.Email[newMailLen + 1 + partPasswordLen] = '\0';
           }
         } else {
           // mail was too long, so truncate password:
